@@ -135,6 +135,27 @@ SiteOK == \A cs \in SiteCases : /\ Len(cs.sites) = cs.n
                                  /\ (cs.gas => cs.n = 0)
                                  /\ cs.pw <= 1
 
+\* ------------------------------------------------------------------ what the writers hand out
+\* SurfaceReaction.to_cti / to_omkm_yaml.  An option is "none" (not given), "zero" (given as 0.0)
+\* or "val" (given, non-zero).  A value that was given is written as given (zero included);
+\* otherwise: Ea of an adsorption = the requested ads_act_method, Ea of any other reaction =
+\* get_G_act, A = get_A without the activation entropy (sticking coefficient for adsorption,
+\* default 1/2), b = 0 for adsorption and 1 otherwise.
+Opt == {"none", "zero", "val"}
+AdsMethods == {"get_H_act", "get_G_act"}
+HandedCfg == {[ads |-> ads, method |-> m, ea |-> ea, a |-> a, stick |-> st, beta |-> b, mw |-> mw]
+                : ads \in BOOLEAN, m \in AdsMethods, ea \in Opt, a \in Opt, st \in Opt, b \in Opt,
+                  mw \in BOOLEAN}
+EaSource(c) == IF c.ea # "none" THEN "given" ELSE IF c.ads THEN c.method ELSE "get_G_act"
+ASource(c) == IF c.ads THEN (IF c.stick = "none" THEN "half" ELSE "given_stick")
+              ELSE (IF c.a = "none" THEN "get_A_no_entropy" ELSE "given_A")
+BetaSource(c) == IF c.beta # "none" THEN "given" ELSE IF c.ads THEN "zero" ELSE "one"
+\* a computed activation energy is a clamp, hence never negative; a given one is the user's
+HandedOK == \A c \in HandedCfg :
+               /\ (EaSource(c) = "given") = (c.ea # "none")
+               /\ (c.ads => ASource(c) \in {"half", "given_stick"})
+               /\ (~c.ads => EaSource(c) \in {"given", "get_G_act"})
+
 \* ------------------------------------------------------------------ state machine
 VARIABLES rx, obs
 vars == <<rx, obs>>
